@@ -103,6 +103,9 @@ func (lv LiteralValue) completeBoolAtPos(ctx context.Context, pos hcl.Pos) []lan
 				value = "true"
 			}
 			prefixLen := pos.Byte - eType.Range().Start.Byte
+			if prefixLen < 0 || prefixLen > len(value) {
+				return []lang.Candidate{}
+			}
 			prefix := value[0:prefixLen]
 			return lv.boolLiteralValueCandidates(prefix, eType.Range())
 		}
